@@ -1,5 +1,5 @@
 import connspec
-SPEC = connspec.spec('C06', 'check_C06', {60: 'payload_delivered_before_setup', 61: 'payloads_lost_duplicated_or_reordered'}, "Theorem (Coq), connection level: on every run of the connection model - any role, any finite event list, SPINE data frames interleaved arbitrarily with the remaining handshake messages, payload lists of unbounded length - the payloads handed to the SPINE reader are exactly the well-formed SPINE payloads received, each once and in arrival order, once the remote device has been set up, and none before: frames arriving earlier are buffered and delivered first. The control facts per step (deliver iff reader set, buffer otherwise, flush exactly in the step that sets the reader, no other delivery) come from the certified closure; the list invariant is proved by induction on the run. Tie: per-event differential comparison incl. every ODeliver with its payload id and the buffer length in the hook snapshot; the same c06_data function is evaluated on the implementation's observations. The two-endpoint half (what one side's writer accepts is what the peer's reader gets) is decided on the Pair model (C03) and the websocket model (C12: wire is a gap-free prefix of accepted); content fidelity is C07.", technique='certified closure for the per-step control facts + induction over the run for the payload lists; differential correspondence')
+SPEC = connspec.spec('C06', 'check_C06', {60: 'payload_delivered_before_setup', 61: 'payloads_lost_duplicated_or_reordered', 62: 'payload_delivered_before_completion_was_reported'}, "Theorem (Coq), connection level: on every run of the connection model - any role, any finite event list, SPINE data frames interleaved arbitrarily with the remaining handshake messages, payload lists of unbounded length - the payloads handed to the SPINE reader are exactly the well-formed SPINE payloads received, each once and in arrival order, once the remote device has been set up, and none before: frames arriving earlier are buffered and delivered first. The control facts per step (deliver iff reader set, buffer otherwise, flush exactly in the step that sets the reader, no other delivery) come from the certified closure; the list invariant is proved by induction on the run. Tie: per-event differential comparison incl. every ODeliver with its payload id and the buffer length in the hook snapshot; the same c06_data function is evaluated on the implementation's observations. The two-endpoint half (what one side's writer accepts is what the peer's reader gets) is decided on the Pair model (C03) and the websocket model (C12: wire is a gap-free prefix of accepted); content fidelity is C07.", technique='certified closure for the per-step control facts + induction over the run for the payload lists; differential correspondence')
 
 SPEC["streams"] = [dict(imports="From Ship Require Import Base Conn ConnMon Pair PairClosure PairCheck.", case_type="pair_case",
                         check_fn="check_pair_spine",
